@@ -3,6 +3,7 @@ import Mathlib.Analysis.Calculus.Deriv.Add
 import Mathlib.Analysis.Calculus.Deriv.Mul
 import Mathlib.Analysis.Calculus.Deriv.Inv
 import Mathlib.Analysis.Calculus.Deriv.Pow
+import Mathlib.Analysis.SpecialFunctions.Trigonometric.InverseDeriv
 /-! Helper lemmas for C01. -/
 open Cv Cv.Geom
 
@@ -611,5 +612,164 @@ theorem distance_grad_sum (g1 g2 : AGroup ℝ) (hM1 : msum g1 ≠ 0) (hM2 : msum
   simp only [distanceGrad]
   rw [groupForce_weighted g1 hM1, groupForce_weighted g2 hM2]
   apply v3_ext <;> simp [V3.add, V3.smul, V3.zero, lit0, lit1]
+
+/-! ### angle (degrees) -/
+
+/-- cosine of the angle between two vectors that move along lines -/
+theorem hasDerivAt_cos_lines (a w b w' : V3 ℝ) (ha : V3.norm a ≠ 0) (hb : V3.norm b ≠ 0) :
+    HasDerivAt (fun t : ℝ => V3.dot (V3.add a (V3.smul t w)) (V3.add b (V3.smul t w'))
+        / (V3.norm (V3.add a (V3.smul t w)) * V3.norm (V3.add b (V3.smul t w'))))
+      (((V3.dot w b + V3.dot a w') * (V3.norm a * V3.norm b)
+        - V3.dot a b * (V3.dot a w / V3.norm a * V3.norm b + V3.norm a * (V3.dot b w' / V3.norm b)))
+        / (V3.norm a * V3.norm b) ^ 2) 0 := by
+  have hn := (hasDerivAt_norm_line a w ha).fun_mul (hasDerivAt_norm_line b w' hb)
+  have h := (hasDerivAt_dot_lines a w b w').fun_div hn
+    (by simpa [add_smul_zero] using mul_ne_zero ha hb)
+  simp only [add_smul_zero] at h
+  exact h
+
+/-- the angle (in degrees) between two vectors that move along lines -/
+theorem hasDerivAt_angle_lines (a w b w' : V3 ℝ) (ha : V3.norm a ≠ 0) (hb : V3.norm b ≠ 0)
+    (hc1 : -1 < V3.dot a b / (V3.norm a * V3.norm b)) (hc2 : V3.dot a b / (V3.norm a * V3.norm b) < 1) :
+    HasDerivAt (fun t : ℝ => (radToDeg : ℝ) * Real.arccos
+        (V3.dot (V3.add a (V3.smul t w)) (V3.add b (V3.smul t w'))
+          / (V3.norm (V3.add a (V3.smul t w)) * V3.norm (V3.add b (V3.smul t w')))))
+      ((radToDeg : ℝ) * (-(1 / Real.sqrt (1 - (V3.dot a b / (V3.norm a * V3.norm b)) ^ 2))
+        * (((V3.dot w b + V3.dot a w') * (V3.norm a * V3.norm b)
+        - V3.dot a b * (V3.dot a w / V3.norm a * V3.norm b + V3.norm a * (V3.dot b w' / V3.norm b)))
+        / (V3.norm a * V3.norm b) ^ 2))) 0 := by
+  have hc := hasDerivAt_cos_lines a w b w' ha hb
+  have hacos : HasDerivAt Real.arccos (-(1 / Real.sqrt (1 - (V3.dot a b / (V3.norm a * V3.norm b)) ^ 2)))
+      ((fun t : ℝ => V3.dot (V3.add a (V3.smul t w)) (V3.add b (V3.smul t w'))
+        / (V3.norm (V3.add a (V3.smul t w)) * V3.norm (V3.add b (V3.smul t w')))) 0) := by
+    simp only [add_smul_zero]
+    exact Real.hasDerivAt_arccos hc1.ne' hc2.ne
+  exact (hacos.comp 0 hc).const_mul _
+
+/-- the two arm gradients of the model, on bare vectors (`c` the cosine) -/
+noncomputable def armGrads (a b : V3 ℝ) : V3 ℝ × V3 ℝ :=
+  let l21 := V3.norm a
+  let l23 := V3.norm b
+  let c := V3.dot a b / (l21 * l23)
+  let s := Prim.sqrt (1.0 - c * c)
+  let k := (radToDeg : ℝ) * (-1.0 / s)
+  (V3.smul (k / l21) (V3.sub (V3.smul (1.0 / l23) b) (V3.smul (c / l21) a)),
+   V3.smul (k / l23) (V3.sub (V3.smul (1.0 / l21) a) (V3.smul (c / l23) b)))
+
+theorem angleGrad_eq (g1 g2 g3 : AGroup ℝ) :
+    angleGrad g1 g2 g3 =
+      (weighted g1 (armGrads (V3.sub (com g1) (com g2)) (V3.sub (com g3) (com g2))).1,
+       weighted g2 (V3.smul (-1.0) (V3.add (armGrads (V3.sub (com g1) (com g2)) (V3.sub (com g3) (com g2))).1
+          (armGrads (V3.sub (com g1) (com g2)) (V3.sub (com g3) (com g2))).2)),
+       weighted g3 (armGrads (V3.sub (com g1) (com g2)) (V3.sub (com g3) (com g2))).2) := rfl
+
+theorem angle_alg (a b d : V3 ℝ) (μ ν : ℝ) (ha : V3.norm a ≠ 0) (hb : V3.norm b ≠ 0)
+    (hc1 : -1 < V3.dot a b / (V3.norm a * V3.norm b)) (hc2 : V3.dot a b / (V3.norm a * V3.norm b) < 1) :
+    (radToDeg : ℝ) * (-(1 / Real.sqrt (1 - (V3.dot a b / (V3.norm a * V3.norm b)) ^ 2))
+        * (((V3.dot (V3.smul μ d) b + V3.dot a (V3.smul ν d)) * (V3.norm a * V3.norm b)
+        - V3.dot a b * (V3.dot a (V3.smul μ d) / V3.norm a * V3.norm b
+            + V3.norm a * (V3.dot b (V3.smul ν d) / V3.norm b)))
+        / (V3.norm a * V3.norm b) ^ 2))
+      = μ * V3.dot (armGrads a b).1 d + ν * V3.dot (armGrads a b).2 d := by
+  have hs : Real.sqrt (1 - (V3.dot a b / (V3.norm a * V3.norm b)) ^ 2) ≠ 0 := by
+    apply Real.sqrt_ne_zero'.mpr
+    nlinarith
+  have e : (1.0 : ℝ) - V3.dot a b / (V3.norm a * V3.norm b) * (V3.dot a b / (V3.norm a * V3.norm b))
+      = 1 - (V3.dot a b / (V3.norm a * V3.norm b)) ^ 2 := by rw [lit1]; ring
+  simp only [armGrads, prim_sqrt, e]
+  generalize Real.sqrt (1 - (V3.dot a b / (V3.norm a * V3.norm b)) ^ 2) = s at *
+  generalize (radToDeg : ℝ) = R
+  generalize V3.norm a = na at *
+  generalize V3.norm b = nb at *
+  simp only [V3.dot, V3.sub, V3.smul, lit1]
+  field_simp
+  ring
+
+theorem angle_grad1 (g1 g2 g3 : AGroup ℝ) (hM : msum g1 ≠ 0)
+    (ha : V3.norm (V3.sub (com g1) (com g2)) ≠ 0) (hb : V3.norm (V3.sub (com g3) (com g2)) ≠ 0)
+    (hc1 : -1 < angleCos g1 g2 g3) (hc2 : angleCos g1 g2 g3 < 1)
+    (k : Nat) (hk : k < g1.length) (d : V3 ℝ) :
+    HasDerivAt (fun t : ℝ => angle (mv g1 k (V3.smul t d)) g2 g3)
+      (V3.dot ((angleGrad g1 g2 g3).1.getD k V3.zero) d) 0 := by
+  have hfun : ∀ t : ℝ, angle (mv g1 k (V3.smul t d)) g2 g3
+      = (radToDeg : ℝ) * Real.arccos
+        (V3.dot (V3.add (V3.sub (com g1) (com g2)) (V3.smul t (V3.smul ((g1[k]'hk).m / msum g1) d)))
+            (V3.add (V3.sub (com g3) (com g2)) (V3.smul t (V3.smul 0 d)))
+          / (V3.norm (V3.add (V3.sub (com g1) (com g2)) (V3.smul t (V3.smul ((g1[k]'hk).m / msum g1) d)))
+            * V3.norm (V3.add (V3.sub (com g3) (com g2)) (V3.smul t (V3.smul 0 d))))) := by
+    intro t
+    have e1 : V3.sub (com (mv g1 k (V3.smul t d))) (com g2)
+        = V3.add (V3.sub (com g1) (com g2)) (V3.smul t (V3.smul ((g1[k]'hk).m / msum g1) d)) := by
+      rw [com_mv g1 hM k hk]
+      apply v3_ext <;> simp only [V3.add, V3.sub, V3.smul] <;> ring
+    have e3 : V3.sub (com g3) (com g2)
+        = V3.add (V3.sub (com g3) (com g2)) (V3.smul t (V3.smul 0 d)) := by
+      apply v3_ext <;> simp only [V3.add, V3.sub, V3.smul] <;> ring
+    simp only [angle, angleCos, prim_acos]
+    rw [e1, ← e3]
+  simp only [hfun]
+  have h := hasDerivAt_angle_lines (V3.sub (com g1) (com g2)) (V3.smul ((g1[k]'hk).m / msum g1) d)
+    (V3.sub (com g3) (com g2)) (V3.smul 0 d) ha hb hc1 hc2
+  rw [angleGrad_eq, weighted_getD _ _ k hk]
+  refine h.congr_deriv ?_
+  rw [angle_alg _ _ d _ 0 ha hb hc1 hc2]
+  simp only [V3.dot, V3.smul]; ring
+
+theorem angle_grad3 (g1 g2 g3 : AGroup ℝ) (hM : msum g3 ≠ 0)
+    (ha : V3.norm (V3.sub (com g1) (com g2)) ≠ 0) (hb : V3.norm (V3.sub (com g3) (com g2)) ≠ 0)
+    (hc1 : -1 < angleCos g1 g2 g3) (hc2 : angleCos g1 g2 g3 < 1)
+    (k : Nat) (hk : k < g3.length) (d : V3 ℝ) :
+    HasDerivAt (fun t : ℝ => angle g1 g2 (mv g3 k (V3.smul t d)))
+      (V3.dot ((angleGrad g1 g2 g3).2.2.getD k V3.zero) d) 0 := by
+  have hfun : ∀ t : ℝ, angle g1 g2 (mv g3 k (V3.smul t d))
+      = (radToDeg : ℝ) * Real.arccos
+        (V3.dot (V3.add (V3.sub (com g1) (com g2)) (V3.smul t (V3.smul 0 d)))
+            (V3.add (V3.sub (com g3) (com g2)) (V3.smul t (V3.smul ((g3[k]'hk).m / msum g3) d)))
+          / (V3.norm (V3.add (V3.sub (com g1) (com g2)) (V3.smul t (V3.smul 0 d)))
+            * V3.norm (V3.add (V3.sub (com g3) (com g2)) (V3.smul t (V3.smul ((g3[k]'hk).m / msum g3) d))))) := by
+    intro t
+    have e3 : V3.sub (com (mv g3 k (V3.smul t d))) (com g2)
+        = V3.add (V3.sub (com g3) (com g2)) (V3.smul t (V3.smul ((g3[k]'hk).m / msum g3) d)) := by
+      rw [com_mv g3 hM k hk]
+      apply v3_ext <;> simp only [V3.add, V3.sub, V3.smul] <;> ring
+    have e1 : V3.sub (com g1) (com g2)
+        = V3.add (V3.sub (com g1) (com g2)) (V3.smul t (V3.smul 0 d)) := by
+      apply v3_ext <;> simp only [V3.add, V3.sub, V3.smul] <;> ring
+    simp only [angle, angleCos, prim_acos]
+    rw [e3, ← e1]
+  simp only [hfun]
+  have h := hasDerivAt_angle_lines (V3.sub (com g1) (com g2)) (V3.smul 0 d)
+    (V3.sub (com g3) (com g2)) (V3.smul ((g3[k]'hk).m / msum g3) d) ha hb hc1 hc2
+  rw [angleGrad_eq, weighted_getD _ _ k hk]
+  refine h.congr_deriv ?_
+  rw [angle_alg _ _ d 0 _ ha hb hc1 hc2]
+  simp only [V3.dot, V3.smul]; ring
+
+theorem angle_grad2 (g1 g2 g3 : AGroup ℝ) (hM : msum g2 ≠ 0)
+    (ha : V3.norm (V3.sub (com g1) (com g2)) ≠ 0) (hb : V3.norm (V3.sub (com g3) (com g2)) ≠ 0)
+    (hc1 : -1 < angleCos g1 g2 g3) (hc2 : angleCos g1 g2 g3 < 1)
+    (k : Nat) (hk : k < g2.length) (d : V3 ℝ) :
+    HasDerivAt (fun t : ℝ => angle g1 (mv g2 k (V3.smul t d)) g3)
+      (V3.dot ((angleGrad g1 g2 g3).2.1.getD k V3.zero) d) 0 := by
+  have hfun : ∀ t : ℝ, angle g1 (mv g2 k (V3.smul t d)) g3
+      = (radToDeg : ℝ) * Real.arccos
+        (V3.dot (V3.add (V3.sub (com g1) (com g2)) (V3.smul t (V3.smul (-((g2[k]'hk).m / msum g2)) d)))
+            (V3.add (V3.sub (com g3) (com g2)) (V3.smul t (V3.smul (-((g2[k]'hk).m / msum g2)) d)))
+          / (V3.norm (V3.add (V3.sub (com g1) (com g2)) (V3.smul t (V3.smul (-((g2[k]'hk).m / msum g2)) d)))
+            * V3.norm (V3.add (V3.sub (com g3) (com g2)) (V3.smul t (V3.smul (-((g2[k]'hk).m / msum g2)) d))))) := by
+    intro t
+    have e (c : V3 ℝ) : V3.sub c (com (mv g2 k (V3.smul t d)))
+        = V3.add (V3.sub c (com g2)) (V3.smul t (V3.smul (-((g2[k]'hk).m / msum g2)) d)) := by
+      rw [com_mv g2 hM k hk]
+      apply v3_ext <;> simp only [V3.add, V3.sub, V3.smul] <;> ring
+    simp only [angle, angleCos, prim_acos]
+    rw [e, e]
+  simp only [hfun]
+  have h := hasDerivAt_angle_lines (V3.sub (com g1) (com g2)) (V3.smul (-((g2[k]'hk).m / msum g2)) d)
+    (V3.sub (com g3) (com g2)) (V3.smul (-((g2[k]'hk).m / msum g2)) d) ha hb hc1 hc2
+  rw [angleGrad_eq, weighted_getD _ _ k hk]
+  refine h.congr_deriv ?_
+  rw [angle_alg _ _ d _ _ ha hb hc1 hc2]
+  simp only [V3.dot, V3.smul, V3.add, lit1]; ring
 
 end Cv.C01
